@@ -768,6 +768,6 @@ namespace c07
       "RGCR recycles search directions between solves by design: its histories are judged by the truthfulness oracle instead of bitwise equality",
       "convergence is required only under generous limits (max_iter 100, min_iter 0) and within scope: SPD systems for CG-type/Chebyshev, unscaled systems for Richardson/PMR/PCGNR/Chebyshev"};
     spec.deadline_quick_s = 500; spec.deadline_thorough_s = 2400;
-    spec.max_report = 600; spec.max_fail_per_worker = 4000; // many distinct keys (solver x check); every key is reported at most twice per worker
+    spec.max_report = 40; spec.max_fail_per_worker = 4000; // many distinct keys (solver x check); every key is reported at most twice per worker
   }
 } // namespace c07
